@@ -126,14 +126,43 @@ def make_sdf(rng):
         ports = (p, p)
         ptxt = f" {p}"
     elif r < 0.55:
-        lo = rng.choice([1, 1000, 65000, rng.randrange(1, 65000)])
-        hi = min(65535, lo + rng.choice([1, 5, 99]))
+        lo = rng.choice([1, 1000, 65000, 65436, 65500, 65534, rng.randrange(1, 65000)])
+        hi = min(65535, lo + rng.choice([1, 5, 35, 99]))
         ports = (lo, hi)
         ptxt = f" {lo}-{hi}"
     else:
         ptxt = ""
     text = f"permit out {pr[0]} from {net[0]}{ptxt} to assigned"
     return {"text": text, "rip": net[1], "rmask": net[2], "proto": pr[1], "ports": ports}
+
+
+APP_FLOWS = [
+    # (text, direction keyword, proto, src endpoint, dst endpoint); endpoint = (kind, ip, mask, ports)
+    ("permit out ip from any 5000 to any", "out", None, ("any", 0, 0, (5000, 5000)), ("any", 0, 0, None)),
+    ("permit in ip from any to any 8080-8084", "in", None, ("any", 0, 0, None), ("any", 0, 0, (8080, 8084))),
+    ("permit out udp from 9.9.9.0/24 to assigned 6000-6003", "out", 17, ("net", (9 << 24) | (9 << 16) | (9 << 8), 0xFFFFFF00, None), ("assigned", 0, 0, (6000, 6003))),
+    ("permit in tcp from assigned 7000 to 1.1.1.1", "in", 6, ("assigned", 0, 0, (7000, 7000)), ("net", (1 << 24) | (1 << 16) | (1 << 8) | 1, 0xFFFFFFFF, None)),
+    ("permit out ip from any to any 1024-1100", "out", None, ("any", 0, 0, None), ("any", 0, 0, (1024, 1100))),
+    ("permit in ip from 10.0.0.0/8 65500-65535 to assigned", "in", None, ("net", 10 << 24, 0xFF000000, (65500, 65535)), ("assigned", 0, 0, None)),
+    ("permit out 132 from any to 8.8.8.8 53", "out", 132, ("any", 0, 0, None), ("net", (8 << 24) | (8 << 16) | (8 << 8) | 8, 0xFFFFFFFF, (53, 53))),
+    ("permit in udp from any 1-1 to assigned", "in", 17, ("any", 0, 0, (1, 1)), ("assigned", 0, 0, None)),
+]
+
+
+def app_table(rng):
+    """application id -> list of flow descriptions (one 'out' and one 'in' flow, or only one direction)"""
+    outs = [f for f in APP_FLOWS if f[1] == "out"]
+    ins = [f for f in APP_FLOWS if f[1] == "in"]
+    t = {}
+    for k in range(rng.choice([1, 2, 3])):
+        flows = []
+        if rng.random() < 0.85:
+            flows.append(rng.choice(outs))
+        if rng.random() < 0.85:
+            flows.append(rng.choice(ins))
+        rng.shuffle(flows)
+        t[f"app{k + 1}"] = flows
+    return t
 
 
 def ref_pdr(s, lseid, establishment=True):
@@ -160,6 +189,18 @@ def ref_pdr(s, lseid, establishment=True):
             p.update(f_dip=p["ue"], f_dip_m=M32)
         else:
             p.update(f_sip=p["ue"], f_sip_m=M32)
+    ap = s.get("app_sem")
+    if ap is not None:
+        # verbatim: source to packet source, destination to packet destination; "assigned" = the UE address
+        def res(e):
+            if e[0] == "assigned":
+                return (0, 0) if p["ue"] == 0 else (p["ue"], M32)
+            return (e[1], e[2])
+        if ap[2] is not None:
+            p.update(f_proto=ap[2], f_proto_m=0xFF)
+        (sipv, sipm), (dipv, dipm) = res(ap[3]), res(ap[4])
+        p.update(f_sip=sipv, f_sip_m=sipm, f_dip=dipv, f_dip_m=dipm,
+                 f_sp=list(ap[3][3]) if ap[3][3] else [0, 65535], f_dp=list(ap[4][3]) if ap[4][3] else [0, 65535])
     sd = s.get("sdf_sem")
     if sd is not None:
         if sd["proto"] is not None:
@@ -342,6 +383,7 @@ class Gen:
         self.nconn = nconn
         self.next_teid = 0x100
         self.dead = set()
+        self.pfds = {}         # conn -> app id -> flows (APP_FLOWS tuples)
 
     def _seq(self):
         self.seq = (self.seq + 1) & 0xFFFFFF
@@ -382,6 +424,7 @@ class Gen:
         for l in [l for l, s in self.sessions.items() if s["conn"] == conn]:
             del self.sessions[l]
         self.assoc.pop(conn, None)
+        self.pfds.pop(conn, None)
         self.next_lseid.pop(conn, None)     # a fresh PFCPConn (and random source) serves the peer from now on
 
     def restart(self):
@@ -390,14 +433,18 @@ class Gen:
         self.sessions.clear()
         self.assoc.clear()
         self.dead.clear()
+        self.pfds.clear()
         self.next_lseid.clear()
 
     def pfd(self, conn, table, bad=False):
+        """table: app id -> list of flow texts or APP_FLOWS tuples"""
         seq = self._seq()
         ies = []
+        if not bad:
+            self.pfds[conn] = {k: [f for f in v if isinstance(f, tuple)] for k, v in table.items()}
         for appid, flows in table.items():
             kids = [P.app_id(appid)]
-            ctx = [P.pfd_contents(flow=f) for f in flows]
+            ctx = [P.pfd_contents(flow=(f[0] if isinstance(f, tuple) else f)) for f in flows]
             if bad and appid == list(table)[-1]:
                 ctx.append(P.pfd_contents(url="http://x"))      # no flow description -> rejected
             kids.append(P.grouped(P.PFD_CONTEXT, *ctx))
@@ -467,6 +514,14 @@ class Gen:
         for n in range(npairs):
             pdrs += self.new_pdr_pair(n, qers=qids, **kw)
             fars += self.new_far_pair(n)
+        apps = self.pfds.get(conn) or {}
+        if apps and npairs >= 1 and r.random() < 0.6 and "sdf" not in pdrs[0]:
+            # the first pair is classified by a provisioned application id: uplink takes the first "out" flow, downlink the first "in" flow
+            appid = r.choice(sorted(apps))
+            for p_ in pdrs[:2]:
+                want = "out" if p_["iface"] == 0 else "in"
+                p_["appid"] = appid
+                p_["app_sem"] = next((f for f in apps[appid] if f[1] == want), None)
         qers = [self.new_qer(q) for q in qids]
         k = self.next_lseid.get(conn, 0) + 1
         self.next_lseid[conn] = k
@@ -494,7 +549,7 @@ class Gen:
         Everything acquired so far has to be returned (C05) and nothing may be written (C03)."""
         r = self.rng
         seq = self._seq()
-        pdrs = list(self.new_pdr_pair(0, choose=True, chv4=self.cfg["ueip_alloc"], with_sdf=False))
+        pdrs = list(self.new_pdr_pair(0, choose=True, chv4=self.cfg["ueip_alloc"] and r.random() < 0.5, with_sdf=False))
         fars = list(self.new_far_pair(0))
         qers = [self.new_qer(1)]
         kind = r.choice(["pdr_no_far", "pdr_unknown_app", "pdr_cp_iface", "far_no_action", "far_fwd_missing", "qer_no_id"])
@@ -631,6 +686,8 @@ def random_history(rng, cfg=None, length=14, restarts=True):
     for c in range(g.nconn):
         if rng.random() < 0.85:
             g.setup(c)
+            if rng.random() < 0.5:
+                g.pfd(c, app_table(rng))
     snap()
     for _ in range(length):
         r = rng.random()
@@ -691,6 +748,10 @@ def mon_c01(case, intents, obs):
             out.append((f"panic:{o.get('func', '?')}:{kind}", f"event {i} panicked: {o['panic']} @ {o.get('frame')} in {o.get('func')}", i))
         if o.get("blocked"):
             out.append(("blocked", f"event {i} did not return (receive loop wedged)", i))
+        if o.get("runaway"):
+            out.append(("memory-runaway", f"event {i} left a goroutine allocating without bound (heap {o['runaway'] >> 20} MiB): the agent runs out of memory", i))
+    if obs and obs[0].get("skipped"):
+        return []
     if len(obs) < len(case["events"]) and not out:
         out.append(("history-cut", "harness stopped early without a recorded reason", len(obs)))
     return out
